@@ -53,6 +53,9 @@ def strategy(tier):
             )
         )
         case["params_extra"] = {"lamb_max": draw(st.sampled_from([1e12, 1e12, 1e4, 64.0]))}
+        if draw(st.integers(0, 3)) == 0:
+            # a raised lamb_min: the ratio controllers clamp to it, the exact controller passes below it
+            case["params"]["lamb_min"] = draw(st.sampled_from([1e-3, 0.05, 0.5]))
         if draw(st.integers(0, 2)) == 0:
             case["fault"] = {"kind": draw(st.sampled_from(["fact", "solve"])), "k": draw(st.integers(0, 40))}
         return case
